@@ -7,6 +7,7 @@
 import PdtModel.Model.Segment
 import PdtModel.Model.Blocks
 import PdtModel.Lemmas.Marker
+import PdtModel.Props.Regex
 import PdtModel.Gen.Consts
 set_option linter.unusedSimpArgs false
 namespace Pdt.C03
@@ -810,5 +811,13 @@ example :
     let cfg : Blocks.Config := ⟨.cellgrid, none, .raising, ⟨fun _ => none, fun _ => .valueError, fun _ => false⟩⟩
     ((parseBlocks cfg [[.str "author:".toList], [.str "**t".toList], [.str "all".toList]] ⟨FixCfg.strict, 0, 0, []⟩).blocks.map
       (fun d => (d.ty, d.first))) = [(.metadata, 0), (.table, 1)] := by decide
+
+/-! ## The classifier IS the regex (Props/Regex.lean): the pattern text extracted from blocks.py, run by the generic
+   engine model of `re` and dispatched as `parse_blocks_stable` does, is `classify` — for every first cell -/
+theorem classify_is_marker_regex :
+    ∃ r, Regex.Re.parse Gen.markerPattern.toList = some r ∧
+      ∀ (T : Regex.Tables) (s : Str),
+        Regex.dispatch s (Regex.pyMatch T r s) = Regex.Dispatch.ofClassify (classify s) :=
+  RegexProps.marker_pattern_denotes_classify
 
 end Pdt.C03
